@@ -1,7 +1,7 @@
 (* C18 - laws of the ranking-function operations, for every table (any signature length, any rank values). *)
 From InfOCF Require Import Core Form Model Ocf ThmOcf.
 From Coq Require Import Sorted.
-From InfOCF Require Import PyLib TieOcf TieTpo.
+From InfOCF Require Import PyLib TieOcf TieTpo TieMarg.
 From InfOCFGen Require Import SrcOcf SrcOcfCustom SrcTpo.
 From Coq Require Import ZArith.
 
@@ -89,6 +89,19 @@ Print Assumptions C18_source_tpo2ranks_is_model.
 Theorem C18_source_is_ocf_exact : forall n (d:wdict (option BinNums.Z)), NoDup (map fst d) -> py_PreOCF_is_ocf n d = Return (forallb nonneg d).
 Proof. exact tie_is_ocf. Qed.
 Print Assumptions C18_source_is_ocf_exact.
+(* marginalize: over the signature a_0..a_(n-1), for every table of distinct worlds of length n and every list of atoms to eliminate,
+   the generated function returns the model's table (one entry per reduced world, least rank of the worlds it stands for) and the
+   signature without the eliminated atoms - so C18_marginalize_* above hold of what the code returns *)
+Theorem C18_source_marginalize_is_model : forall n (t:table), NoDup (map fst t) -> (forall p, In p t -> length (fst p) = n) -> forall drop,
+  py_PreOCF_marginalize n (zt_of t) (sig n) (marg drop)
+  = Return (zt_of (marginalize drop t), map Z.of_nat (filter (keepnat drop) (seq 0 n))).
+Proof. exact tie_marginalize. Qed.
+Print Assumptions C18_source_marginalize_is_model.
+Example marginalize_source_example :
+  py_PreOCF_marginalize 2 (zt_of t2) (sig 2) (marg [0]) = Return ([([false], Some 0%Z); ([true], Some 3%Z)], [1%Z])
+  /\ py_PreOCF_marginalize 2 (zt_of t2) (sig 2) (marg [1;0]) = Return ([([], Some 0%Z)], []).
+Proof. vm_compute. split; reflexivity. Qed.
+
 Example tpo_source_example : py_ranks2tpo 2 (zt_of t2) = Return [[[false;false]]; [[true;false]]; [[false;true];[true;true]]]
   /\ py_tpo2ranks 2 [[[false;false]]; [[true;false]]] (fun i => Return (2 * i)%Z) = Return [([false;false], Some 0%Z); ([true;false], Some 2%Z)]
   /\ py_PreOCF_is_ocf 2 (zt_of t2) = Return true /\ py_PreOCF_is_ocf 2 [([true], Some (-1)%Z)] = Return false.
